@@ -13,7 +13,7 @@ import glob, json, os
 from . import tla, adt, adtcheck
 
 
-def gen_cases(chk, spec_dir, module, cfg, tag, workers=4, timeout=1500, env=None, what=""):
+def gen_cases(chk, spec_dir, module, cfg, tag, workers=1, timeout=1500, env=None, what=""):
     """Run TLC on a case-emitting module.  Returns list of case dicts (all files
     whose name starts with the OUT prefix are read)."""
     d = os.path.join(tla.WORK, "cases", tag)
